@@ -41,7 +41,7 @@ Print Assumptions exports_resolve_eq_partial.
 (* the same for esmPackageImportsResolve and PACKAGE_IMPORTS_RESOLVE *)
 Theorem imports_resolve_eq_partial : forall j spec conds,
   in_scope_imports j spec = true ->
-  outcome_of_model (imports_resolve spec (parse_top j) conds)
+  outcome_of_model (imports_resolve spec (parse j) conds)
   = coarse (node_imports_resolve spec j conds).
 Proof. exact imports_resolve_eq_partial_all. Qed.
 Print Assumptions imports_resolve_eq_partial.
@@ -49,10 +49,9 @@ Print Assumptions imports_resolve_eq_partial.
 (* The domain of the two theorems above is EXACTLY: the documented exclusions
    (keys / specifiers ending in "/"), the URL fragment modelled by the
    specification (URL-plain characters, no empty segment), and the absence of
-   every refuted shape that is still open: D1, D3, D5, D7, D8, D10 and the
-   top-level mixed keys of "imports" (C11.Scope [shape_*]); D2, D4 (nested) and D12
-   were repaired in /repo and their detectors are gone; nothing else is
-   excluded (keys with several "*", any nesting, any condition set are in). *)
+   every refuted shape that is still open: D1, D3, D5, D7, D8, D10 (C11.Scope
+   [shape_*]); D2, D4 and D12 were repaired in /repo and their detectors are gone;
+   nothing else is excluded (keys with several "*", any nesting, any condition set are in). *)
 Theorem in_scope_exports_split : forall j mk,
   in_scope_exports j mk = documented_ok j mk && fragment_ok j mk && no_refuted_shape false j mk.
 Proof. exact in_scope_exports_split_all. Qed.
@@ -83,7 +82,7 @@ Print Assumptions exports_resolve_eq_refuted.
 
 Theorem imports_resolve_eq_refuted : exists j sp conds,
   documented_scope j sp = true /\
-  outcome_of_model (imports_resolve sp (parse_top j) conds)
+  outcome_of_model (imports_resolve sp (parse j) conds)
   <> coarse (node_imports_resolve sp j conds).
 Proof. exact imports_resolve_eq_refuted_all. Qed.
 Print Assumptions imports_resolve_eq_refuted.
@@ -139,12 +138,13 @@ Theorem fixed_nested_object_mixed_keys :
 Proof. exact fixed_nested_mixed_keys. Qed.
 Print Assumptions fixed_nested_object_mixed_keys.
 
-(* what is left of D4: the top-level object of "imports" *)
-Theorem refuted_imports_top_level_mixed_keys :
-  model_imports w_imports_mixed (s_ "#a") = ORefused ENotExported
-  /\ spec_imports w_imports_mixed (s_ "#a") = OResolved (s_ "/a.js").
-Proof. exact refuted_imports_top_mixed. Qed.
-Print Assumptions refuted_imports_top_level_mixed_keys.
+(* the rest of D4 (top-level object of "imports") was repaired by 9a0cc2e *)
+Theorem fixed_imports_top_level_mixed_keys :
+  model_imports w_imports_mixed (s_ "#a") = OResolved (s_ "/a.js")
+  /\ spec_imports w_imports_mixed (s_ "#a") = OResolved (s_ "/a.js")
+  /\ in_scope_imports w_imports_mixed (s_ "#a") = true.
+Proof. exact fixed_imports_top_mixed. Qed.
+Print Assumptions fixed_imports_top_level_mixed_keys.
 
 Theorem refuted_numeric_condition_key :
   model_exports w_index (s_ "./a") = OResolved (s_ "/y.js")
@@ -229,7 +229,8 @@ Print Assumptions fixed_package_scope_boundary.
    Hypotheses, each excluding one recorded shape or a modelling limit:
      wf_fs, no_ts_rewrite          file system well formed / no TypeScript rewrite target;
      no_case_collision             D11 (the model looks names up exactly, esbuild case-insensitively);
-     bare_ok                       valid package name (D13) and no "", ".", ".." segment in the specifier;
+     bare_ok                       valid package name and no "", ".", ".." segment in the specifier
+                                   (specifiers without a valid name: package_resolve_invalid_name_eq_partial);
      pkgs_ok / pkgs_imports_ok     every exports / imports map in the tree is in the domain of the core
                                    theorems (documented exclusions, URL fragment, no refuted shape D1..D10);
      remap_ok                      the same for a bare target an imports map remaps to.
@@ -273,15 +274,24 @@ Theorem package_imports_resolve_eq_partial : forall builtin fs, wf_fs fs -> no_t
 Proof. exact (fun b fs Hw Ht _ => package_resolve_imports_all b fs Hw Ht). Qed.
 Print Assumptions package_imports_resolve_eq_partial.
 
-(* without bare_ok the statement is false of the faithful model (finding D13,
-   replayed by the harness witness "invalid-package-name-taken-as-self-reference") *)
-Theorem package_resolve_eq_refuted_nameless_self_reference :
+(* D13 was repaired in /repo (d8f247a): a specifier WITHOUT a valid package name
+   ("@foo", ".x/y", "a%b") is never a self reference; for such specifiers esbuild
+   equals Node's CommonJS loader on every file system, and the former witness agrees *)
+Theorem package_resolve_invalid_name_eq_partial : forall builtin fs, wf_fs fs -> no_ts_rewrite fs ->
+  no_case_collision fs = true ->
+  forall user x, package_name_spec x = None -> plain_spec x = true ->
+  forall dir, is_package_path x = true -> prefixb [ch_hash] x = false ->
+  agree (resolve builtin fs KRequire user dir x) (require_resolve builtin fs user dir x).
+Proof. exact (fun b fs Hw Ht _ => package_resolve_invalid_name_all b fs Hw Ht). Qed.
+Print Assumptions package_resolve_invalid_name_eq_partial.
+
+Theorem fixed_nameless_self_reference_witness :
   wf_fsb w_nameless_fs = true /\ no_tsb w_nameless_fs = true /\ no_case_collision w_nameless_fs = true
-  /\ bare_ok (s_ "@foo") = false
-  /\ resolve (fun _ => false) w_nameless_fs KRequire [] [] (s_ "@foo") = RFail
+  /\ package_name_spec (s_ "@foo") = None /\ plain_spec (s_ "@foo") = true
+  /\ resolve (fun _ => false) w_nameless_fs KRequire [] [] (s_ "@foo") = RFile (pw_ ["node_modules"; "@foo"; "index.js"])
   /\ require_resolve (fun _ => false) w_nameless_fs [] [] (s_ "@foo") = NFile (pw_ ["node_modules"; "@foo"; "index.js"]).
-Proof. exact refuted_nameless_self_reference. Qed.
-Print Assumptions package_resolve_eq_refuted_nameless_self_reference.
+Proof. exact fixed_nameless_self_reference. Qed.
+Print Assumptions fixed_nameless_self_reference_witness.
 
 (* ---- ES-module entry (import): relative and absolute specifiers, every file
    system, no hypothesis: whenever Node's ESM_RESOLVE resolves (no extension
